@@ -39,6 +39,8 @@ type protoCase struct {
 	DataFile    string `json:"dataFile,omitempty"`
 	// Repeat > 1: the same call is made again (without a channel) -- same texts, same process, back to back
 	Repeat int `json:"repeat,omitempty"`
+	// Debug is passed as the entry points' debug argument; it must change nothing that is observed
+	Debug bool `json:"debug,omitempty"`
 }
 
 type callObs struct {
@@ -357,17 +359,17 @@ func runProtoOnce(c protoCase, obsp *protoObs, doCall func(string, bool, func() 
 	switch c.Entry {
 	case "validate":
 		doCall("validate", true, func() (string, *rego.PreparedEvalQuery, error) {
-			r, err := pkg.Validate(c.Profile, c.Data, false, chp)
+			r, err := pkg.Validate(c.Profile, c.Data, c.Debug, chp)
 			return r, nil, err
 		})
 	case "validateCfg":
 		doCall("validate", true, func() (string, *rego.PreparedEvalQuery, error) {
-			r, err := pkg.ValidateWithConfiguration(c.Profile, c.Data, false, chp, clockA, repCfg)
+			r, err := pkg.ValidateWithConfiguration(c.Profile, c.Data, c.Debug, chp, clockA, repCfg)
 			return r, nil, err
 		})
 	case "compile":
 		doCall("compile", true, func() (string, *rego.PreparedEvalQuery, error) {
-			h, err := pkg.CompileProfile(c.Profile, false, chp)
+			h, err := pkg.CompileProfile(c.Profile, c.Debug, chp)
 			if err != nil {
 				return "", h, err
 			}
@@ -375,7 +377,7 @@ func runProtoOnce(c protoCase, obsp *protoObs, doCall func(string, bool, func() 
 		})
 	case "validateCompiled", "validateCompiledCfg":
 		pre := guarded(func() (string, *rego.PreparedEvalQuery, error) {
-			h, err := pkg.CompileProfile(c.Profile, false, nil)
+			h, err := pkg.CompileProfile(c.Profile, c.Debug, nil)
 			return "", h, err
 		})
 		if pre.kind != "handle" {
@@ -384,15 +386,15 @@ func runProtoOnce(c protoCase, obsp *protoObs, doCall func(string, bool, func() 
 		}
 		doCall("validateCompiled", true, func() (string, *rego.PreparedEvalQuery, error) {
 			if c.Entry == "validateCompiled" {
-				r, err := pkg.ValidateCompiled(pre.h, c.Data, false, chp)
+				r, err := pkg.ValidateCompiled(pre.h, c.Data, c.Debug, chp)
 				return r, nil, err
 			}
-			r, err := pkg.ValidateCompiledWithConfiguration(pre.h, c.Data, false, chp, clockA, repCfg)
+			r, err := pkg.ValidateCompiledWithConfiguration(pre.h, c.Data, c.Debug, chp, clockA, repCfg)
 			return r, nil, err
 		})
 	case "compileThenValidate":
 		o := doCall("compile", false, func() (string, *rego.PreparedEvalQuery, error) {
-			h, err := pkg.CompileProfile(c.Profile, false, chp)
+			h, err := pkg.CompileProfile(c.Profile, c.Debug, chp)
 			if err != nil {
 				return "", h, err
 			}
@@ -400,7 +402,7 @@ func runProtoOnce(c protoCase, obsp *protoObs, doCall func(string, bool, func() 
 		})
 		if o.kind == "handle" && !o.chanClosed {
 			doCall("validateCompiled", true, func() (string, *rego.PreparedEvalQuery, error) {
-				r, err := pkg.ValidateCompiled(o.h, c.Data, false, chp)
+				r, err := pkg.ValidateCompiled(o.h, c.Data, c.Debug, chp)
 				return r, nil, err
 			})
 		} else if o.release != nil {
